@@ -195,3 +195,29 @@ Definition ops_of (who : bool) (sched : list (bool * op)) : list op :=
 (** A record placed in a one-array heap. *)
 Definition on_heap (r : rec) : heap * hrec :=
   ([r_back r], {| h_front := r_front r; h_back := 0; h_flat := r_flat r; h_nested := r_nested r |}).
+
+(** What both records show after every step of a schedule (aliasing model). *)
+Fixpoint htrace (lenlim limit : Z) (hp : heap) (ho hc : hrec) (sched : list (bool * op)) : list (obs * obs) :=
+  match sched with
+  | [] => []
+  | (false, o) :: s =>
+      let '(hp', ho') := hstep lenlim limit hp ho o in
+      (observe (to_rec hp' ho'), observe (to_rec hp' hc)) :: htrace lenlim limit hp' ho' hc s
+  | (true, o) :: s =>
+      let '(hp', hc') := hstep lenlim limit hp hc o in
+      (observe (to_rec hp' ho), observe (to_rec hp' hc')) :: htrace lenlim limit hp' ho hc' s
+  end.
+
+(** The same for two records that are plain values (no sharing possible). *)
+Fixpoint ptrace (lenlim limit : Z) (ro rc : rec) (sched : list (bool * op)) : list (obs * obs) :=
+  match sched with
+  | [] => []
+  | (false, o) :: s => let ro' := step lenlim limit ro o in (observe ro', observe rc) :: ptrace lenlim limit ro' rc s
+  | (true, o) :: s => let rc' := step lenlim limit rc o in (observe ro, observe rc') :: ptrace lenlim limit ro rc' s
+  end.
+
+(** Clone the record [r] (placed on a fresh heap) and trace a schedule. *)
+Definition clone_trace (lenlim limit : Z) (r : rec) (sched : list (bool * op)) : list (obs * obs) :=
+  let '(hp0, ho) := on_heap r in
+  let '(hp1, hc) := hclone hp0 ho in
+  htrace lenlim limit hp1 ho hc sched.
